@@ -47,6 +47,22 @@ pub fn run(ctx: &Ctx) -> i32 {
     rep.assumptions.push("the in-process hook runs the same derive body as the shipping macro; panics seen only in-process are confirmed through real rustc".into());
     if let Some(p) = &ctx.replay {
         let Some(v) = check::read_replay(p) else { rep.inconclusive.push("unreadable replay file".into()); return rep.finish() };
+        // the saved request itself is replayed: it must be refused
+        if let Some(src) = v["source"].as_str() {
+            let src = src.replace("#[derive(Educe)]\n", "");
+            rep.evaluations = 1;
+            match engine::expand_src(&src) {
+                Expansion::Ok(_) => rep.violations.push(Failure { msg: "the saved invalid request is still accepted".into(), dna: check::dna_of(&v), variant: "replay".into(), source: src, unit_body: None }),
+                Expansion::Panic(m) if v["variant"].as_str() == Some("panic") => {
+                    if v["unit_body"].is_string() {
+                        return check::replay_unit_panic(ctx, p);
+                    }
+                    let _ = m;
+                },
+                _ => {},
+            }
+            return rep.finish();
+        }
         let c = eval(&check::dna_of(&v));
         rep.evaluations = 1;
         if is_failure(&c) {
